@@ -212,6 +212,10 @@ func TestHarness(t *testing.T) {
 				}
 			}
 		}
+	case "peerfuzz":
+		for i := 0; i < job.N; i++ {
+			emit(FamPeerFuzz(job.Seed*31337+int64(i), job.Params["percase"]))
+		}
 	case "bcast-stress":
 		emit(BcastStress(job.N))
 	case "remote":
